@@ -3,6 +3,7 @@
 //! Every engine executes the *real* zipora code; the oracles are boring
 //! reference models written here.  See /verif/DESIGN.md.
 
+pub mod alloc;
 pub mod core;
 pub mod enumr;
 pub mod model;
